@@ -32,6 +32,11 @@ pub enum Inject {
     Mod100 { count: usize },
     /// `count` counted deltas are copies of their predecessor (stuck: first difference 0)
     Stuck { count: usize },
+    /// couple the warm-up tail to the first counted probes: mode 0: d[99] = d[100] (the first
+    /// counted probe would be stuck if the stuck test were already primed by warm-up probes);
+    /// mode 1: d[101] = 2 * d[100] (probe 101 is stuck only against the zero history);
+    /// mode 2: both
+    LinkWarmup { mode: u8 },
 }
 
 #[derive(Clone, Debug, Serialize, Deserialize)]
@@ -112,6 +117,15 @@ pub fn build_script(c: &Case) -> Script {
                     if d[p] < 1 << 40 {
                         d[p] = ((d[p] + 50) / 100).max(1) * 100;
                     }
+                }
+            }
+            Inject::LinkWarmup { mode } => {
+                if *mode != 1 && d[100] < 1 << 40 {
+                    d[99] = d[100];
+                    d[98] = d[100];
+                }
+                if *mode != 0 && d[100] < 1 << 40 {
+                    d[101] = 2 * d[100];
                 }
             }
             Inject::Stuck { count } => {
@@ -314,13 +328,18 @@ pub fn inject() -> BoxedStrategy<Inject> {
         5 => (0usize..400, 1usize..=40, 0usize..=8, 0u64..=50).prop_map(|(from, stride, count, back)| Inject::Backwards { from, stride, count, back }),
         4 => prop_oneof![0usize..=300, 268usize..=273].prop_map(|count| Inject::Mod100 { count }),
         4 => prop_oneof![0usize..=299, 266usize..=274].prop_map(|count| Inject::Stuck { count }),
+        1 => (0u8..3).prop_map(|mode| Inject::LinkWarmup { mode }),
     ]
     .boxed()
 }
 
 pub fn strategy() -> BoxedStrategy<Case> {
     let first = prop_oneof![4 => 1u64..=1_000_000_000_000, 1 => Just(1u64), 1 => (0u64..1_000_000).prop_map(|k| u64::MAX - k), 1 => (0u64..1_000_000).prop_map(|k| (1u64 << 32) - k)];
-    let inj = prop_oneof![5 => Just(Vec::new()), 4 => proptest::collection::vec(inject(), 1..=1), 2 => proptest::collection::vec(inject(), 2..=3)];
+    // thresholds at their exact boundary together with a coupling of warm-up and counted probes
+    let boundary = (268usize..=273, 0u8..3, any::<bool>()).prop_map(|(count, mode, stuck)| {
+        vec![if stuck { Inject::Stuck { count } } else { Inject::Mod100 { count } }, Inject::LinkWarmup { mode }]
+    });
+    let inj = prop_oneof![5 => Just(Vec::new()), 4 => proptest::collection::vec(inject(), 1..=1), 2 => proptest::collection::vec(inject(), 2..=3), 2 => boundary];
     (first, pattern(), pattern(), 1u64..=5000, inj, any::<u64>()).prop_map(|(first, warm, counted, gap, injects, salt)| Case { first, warm, counted, gap, injects, salt }).boxed()
 }
 
@@ -329,6 +348,10 @@ pub fn def(ctx: &Ctx) -> PropDef {
     let mut subs: Vec<Box<dyn SubCheck>> = Vec::new();
     for part in 0..8 {
         subs.push(PSub::boxed(format!("timers/{}", part), t.pick(750, 75_000), strategy, check));
+    }
+    if ctx.tier == crate::engine::Tier::Thorough {
+        subs.push(crate::props::fuzzsub::FuzzSub::boxed("fz_timer", "C13", 150000, false));
+        subs.push(crate::props::fuzzsub::FuzzSub::boxed("fz_timer", "C13", 150000, true));
     }
     PropDef {
         id: "C13",
